@@ -7,7 +7,7 @@ Open Scope Z_scope.
 
 (* ---------- generic: relabelling and rebuilding ---------- *)
 Lemma from_nx_identity {A} (ltb eqb : A -> A -> bool) (lab : Z -> A) G nodes :
-  gio_wf G -> io_kind G <> KBipartite -> Z.of_nat (length nodes) = io_n G ->
+  gio_wf G -> io_kind G <> GioBipartite -> Z.of_nat (length nodes) = io_n G ->
   (forall u, 1 <= u <= io_n G -> gio_index eqb (lab u) (gio_sort ltb nodes) 1 = Some u) ->
   gio_from_nx ltb eqb (io_kind G) (io_name G) nodes (map (fun e => (lab (fst e), lab (snd e))) (io_edges G)) = Some (GOk G).
 Proof.
@@ -42,7 +42,7 @@ Proof.
   destruct (u =? a) eqn:E; [f_equal; lia|]. rewrite IH by lia. f_equal. lia.
 Qed.
 
-Theorem gml_labels_identity G : gio_wf G -> io_kind G <> KBipartite -> gio_gml_roundtrip G = Some (GOk G).
+Theorem gml_labels_identity G : gio_wf G -> io_kind G <> GioBipartite -> gio_gml_roundtrip G = Some (GOk G).
 Proof.
   intros Hwf HK. unfold gio_gml_roundtrip. destruct Hwf as (Hn & Hwf').
   assert (Hnodes : map (fun v => v - 1) (gt_range1 (io_n G)) = zseq 0 (Z.to_nat (io_n G))).
@@ -56,7 +56,7 @@ Proof.
 Qed.
 
 (* ---------- dot: decimal strings ---------- *)
-Definition g12 : iograph := mkIOG KSimple [] 12 0 [(2, 10)].
+Definition g12 : iograph := mkIOG GioSimple [] 12 0 [(2, 10)].
 
 Lemma g12_wf : gio_wf g12.
 Proof.
@@ -66,10 +66,10 @@ Proof.
 Qed.
 
 (* edge (2,10) of a 12-vertex graph comes back as (2,5) *)
-Lemma dot_g12 : gio_dot_roundtrip g12 = Some (GOk (mkIOG KSimple [] 12 0 [(2, 5)])).
+Lemma dot_g12 : gio_dot_roundtrip g12 = Some (GOk (mkIOG GioSimple [] 12 0 [(2, 5)])).
 Proof. vm_compute. reflexivity. Qed.
 
-Theorem dot_labels_refuted : exists G, gio_wf G /\ io_kind G = KSimple /\ gio_dot_roundtrip G <> Some (GOk G).
+Theorem dot_labels_refuted : exists G, gio_wf G /\ io_kind G = GioSimple /\ gio_dot_roundtrip G <> Some (GOk G).
 Proof. exists g12. split; [exact g12_wf|]. split; [reflexivity|]. rewrite dot_g12. discriminate. Qed.
 
 Lemma dot_index_small n u : 0 <= n <= 9 -> 1 <= u <= n ->
@@ -82,7 +82,7 @@ Proof.
 Qed.
 
 (* up to nine vertices the labels are single digits and the dot round trip is the identity *)
-Theorem dot_labels_partial G : gio_wf G -> io_kind G <> KBipartite -> io_n G <= 9 -> gio_dot_roundtrip G = Some (GOk G).
+Theorem dot_labels_partial G : gio_wf G -> io_kind G <> GioBipartite -> io_n G <= 9 -> gio_dot_roundtrip G = Some (GOk G).
 Proof.
   intros Hwf HK H9. unfold gio_dot_roundtrip, gio_dot_edges. pose proof Hwf as (Hn & _).
   apply (from_nx_identity gt_str_ltb gt_str_eqb gt_print_Z); auto.
